@@ -21,7 +21,7 @@ def prop(pid, rules, explanation, extra_assumptions=(), technique="static analys
     REGISTRY[pid] = {"rules": rules, "explanation": explanation, "assumptions": COMMON_ASSUMPTIONS + list(extra_assumptions), "technique": technique}
 
 
-from . import rules_order as RO, rules_tower as RT, rules_plugin as PL, rules_panic as PN, rules_sql as SQ, rules_wire as WT, rules_config as CF, rules_outage as OUT, rules_index as IX
+from . import rules_order as RO, rules_tower as RT, rules_plugin as PL, rules_panic as PN, rules_sql as SQ, rules_wire as WT, rules_config as CF, rules_outage as OUT, rules_index as IX, rules_txindex as TH
 
 STATIC = ("This check decides structural clauses that are necessary conditions of the property, for ALL paths / thread pairs / table rows of the "
           "compiled program (MIR of /repo's working tree); it does not decide the behavioural statement as a whole. ")
@@ -44,10 +44,10 @@ prop("C03", [RO.rule_OR3, LK.rule_CBS, RO.rule_OR2_watcher, SQ.rule_SQ3, SQ.rule
      "multi-statement writes are one committed sqlite transaction (SQ3); cascades on (SQ1); one critical section and one DB delete per balance update (AT2); "
      "memory purge always followed by the DB purge (OR2g); block processing is re-runnable in the sense that, on a replayed block, only undecryptable or node-rejected breaches are dropped (OR2w: any other verdict, e.g. already-in-chain, keeps the appointment and its tracker). NOT decided: enumeration of crash points, replay equivalence, partial-progress semantics of the SPV client.",
      technique="must-precede / must-follow path analysis on MIR + SQL statement tables")
-prop("C04", [RO.rule_OR2_responder, RO.rule_CR, RO.rule_EF2, RO.rule_EF3, SQ.rule_SQ4, RO.rule_TX],
+prop("C04", [RO.rule_OR2_responder, RO.rule_CR, RO.rule_EF2, RO.rule_EF3, SQ.rule_SQ4, RO.rule_TX, RT.rule_SL, TH.rule_TH],
      STATIC + "Decided: Responder connect/disconnect pipelines complete on all paths; reorg handler gated by coming_from_reorg and re-announces dispute then penalty of the stored tracker; "
      "rejected re-submissions queued for the no-refund delete; completion guard `current_height - h == IRREVOCABLY_RESOLVED` on ConfirmedIn(h); rebroadcast threshold "
-     "InMempoolSince(height - 6) (OR2r); refund flag constant and true exactly for check_confirmations' list (EF2); constants 100/6 (EF3). "
+     "InMempoolSince(height - 6) (OR2r); refund flag constant and true exactly for check_confirmations' list (EF2); constants 100/6 (EF3); the refund persisted with the deletion is the balance after every addition (SL); the confirmation height taken from the index is the block's chain height in every reachable index state (TH). "
      "NOT decided: arithmetic over chain evolutions (off-by-one of the completion height, cadence, status after a reorg of depth d).",
      technique="MIR path facts + comparison-shape and constant-origin rules")
 prop("C05", [PL.rule_PL1, PL.rule_PL3, PL.rule_PL7, PN.rule_PN_plugin, SQ.rule_SQ5_client],
@@ -61,19 +61,19 @@ prop("C06", [RT.rule_AU1, RO.rule_OR2_watcher],
      "has_subscription_expired is the Ok payload of authenticate_user; the signed message is the request-specific one and its template equals what the client signs; "
      "authenticate_user returns Ok only for a recovered key that is a registered user; appointments of different users under one locator are handled independently per block (OR2w: every (locator, uuid) pair is visited, a failure of one never ends the loop). NOT decided: cryptographic claims, isolation over multi-user histories.",
      technique="branch-fact dataflow + origin tracing (identity provenance) + literal cross-check")
-prop("C07", [RT.rule_SL, LK.rule_AT2, RO.rule_EF2, RO.rule_EF3, SQ.rule_SQ3, SQ.rule_SQ5_tower],
+prop("C07", [RT.rule_SL, LK.rule_AT2, RO.rule_EF2, RO.rule_EF3, SQ.rule_SQ3, SQ.rule_SQ5_tower, LK.rule_CBS],
      STATIC + "Decided: the only subtraction of slots is guarded by `required - used <= available` and equals available - (slots(new) - slots(stored for this uuid)); renewal uses checked_add; "
      "refund adds slots(stored blob) and is persisted in the deletion's transaction; one critical section per balance update; only completion refunds; one divisor (2048) at all charge/refund sites; "
-     "the balance reported is the one computed and persisted. NOT decided: the conservation law over histories, the float slot formula per blob length.",
+     "the balance reported is the one computed and persisted; a charge is always followed by the store (no refusal after the balance moved) (CBS). NOT decided: the conservation law over histories, the float slot formula per blob length.",
      technique="comparison/arithmetic shape rules over origin terms + lock spans")
 prop("C08", [RT.rule_RC, WT.rule_WT3, SQ.rule_SQ2],
      STATIC + "Decided: an appointment receipt is returned only on paths that stored the appointment / handed it to the responder, is built from the same ExtendedAppointment (request signature, "
      "height at acceptance) and is signed with the tower key; registration receipts are built from the persisted record; gRPC responses map like-named fields (RC); signed layouts cover every field "
      "once with at most one variable-length component, integers whole through to_be_bytes of their own width (WT3); updates rewrite all mutable columns, inserts/updates bind parameters in column order (SQ2). NOT decided: signature validity, byte-for-byte read-back.",
      technique="dominance + field-level origin tracing + SQL/bind-order tables")
-prop("C09", [RT.rule_SB, RO.rule_OR2_gatekeeper, RO.rule_OR1, SQ.rule_SQ1],
+prop("C09", [RT.rule_SB, RO.rule_OR2_gatekeeper, RO.rule_OR1, SQ.rule_SQ1, RT.rule_AU1],
      STATIC + "Decided: expired = (height >= subscription_expiry) reporting that expiry; outdated = (block_height >= subscription_expiry + expiry_delta); renewal = checked_add(expiry, duration).unwrap_or(MAX) "
-     "on the existing-user arm; new user = (slots, height, height + duration); disconnect stores height - 1; purge pipeline + cascade + listener order. NOT decided: behaviour across reorg histories and boundary configurations.",
+     "on the existing-user arm; new user = (slots, height, height + duration); disconnect stores height - 1; purge pipeline + cascade + listener order; every request handler decides on the flag returned by has_subscription_expired itself (the Gatekeeper's verdict at its own height), not on a comparison re-derived from another height (AU1). NOT decided: behaviour across reorg histories and boundary configurations.",
      technique="comparison-shape rules over closure-resolved origin terms")
 prop("C10", [LK.rule_lock_classes, LK.rule_AT1, LK.rule_AT2, LK.rule_AT3, LK.rule_LK0, LK.rule_LK1],
      STATIC + "Decided, for all paths and all pairs of threads: AT1 (cache look-up and store are one critical section of the locator-cache lock, block thread updates the cache before querying the DB), "
@@ -99,10 +99,10 @@ prop("C14", [PL.rule_PL4, PL.rule_PL5, PN.rule_PN_plugin, PL.rule_PL1, PL.rule_P
      "equals the tower id, otherwise SignatureError -> proof persisted before the status flips -> permanent on the retry path (PL4); sends only to reachable towers, status predicate tables (PL5); no reply class panics (PNp), "
      "is left unrecorded (PL1) or wedges the retry loop (PL2); the in-memory status that gates sending is written only by the listed mutators and never rebuilt from a reply (PL7); no index/slice/positional operation or explicit panic on reply-driven paths is undischarged (IXp). NOT decided: 'any reply' for panics inside reqwest/serde.",
      technique="guard facts at call sites + origin equality of verified/recorded values + classified-unwrap table")
-prop("C15", [WT.rule_HT1, PN.rule_PN2, WT.rule_WT4, IX.rule_IXt],
+prop("C15", [WT.rule_HT1, PN.rule_PN2, WT.rule_WT4, IX.rule_IXt, LK.rule_CBS],
      STATIC + "Decided: the tonic codes constructible in the public handlers are all mapped by explicit arms of match_status to the documented error constants, UNEXPECTED_ERROR only on the catch-all; handle_rejection / ApiError "
      "emit only documented codes; four POST routes with their body limits, one shared recover(handle_rejection); empty/size checks precede forwarding (HT1); what the internal service unwraps on request data is validated "
-     "by the HTTP handler before the gRPC call (PN2); the HTTP layer, the serde adapters and everything reachable from the handlers contain no undischarged index/slice/byte-offset string operation or explicit panic (IXt). NOT decided: promptness, 5xx freedom inside warp/tonic, state unchanged after non-200.",
+     "by the HTTP handler before the gRPC call (PN2); the HTTP layer, the serde adapters and everything reachable from the handlers contain no undischarged index/slice/byte-offset string operation or explicit panic (IXt); add_appointment cannot be refused after the slots were charged (CBS: the one state change that precedes the last failure point). NOT decided: promptness, 5xx freedom inside warp/tonic, state unchanged after non-200.",
      technique="finite code tables extracted from MIR switches + validated-before-forwarded facts")
 prop("C16", [WT.rule_WT1, WT.rule_WT2, WT.rule_WT3, WT.rule_WT4, RT.rule_AU1],
      STATIC + "Decided: per endpoint both sides (de)serialise the same generated message type (so names, renames and adapters agree by construction); the two ApiError structs are twins; status Display/FromStr are inverse "
@@ -112,6 +112,12 @@ prop("C18", [PL.rule_PL7, SQ.rule_SQ1, SQ.rule_SQ3, PL.rule_PL3, SQ.rule_SQ5_cli
      STATIC + "Decided: every mutator changes memory and disk together and only mutators do; status reconstruction agrees between the two loaders; client schema cascades from towers (and appointments) with foreign keys on; "
      "multi-statement writes are transactions; add-before-delete. NOT decided: the reference-counting rule of delete_pending_appointment over operation sequences; memory == disk after histories.",
      technique="who-may-write/call tables + must-follow analysis + SQL schema tables")
+prop("C19", [RO.rule_TX, TH.rule_TH],
+     STATIC + "Decided: (TX) every mutator of the bounded index touches map, queue and per-block key list on all paths, eviction iff over size, disconnect removes exactly the keys listed for that block, "
+     "`tip` moves only with an eviction; (TH) counter abstraction (tip, len, size, ghost height of the front block): each mutator path is a constant effect vector read off the MIR, get_height's result is linearised, "
+     "and reported height = chain height holds on the affine hull of all reachable states (bootstrap state + span of the path effects). NOT decided: the contents clause (exactly the transactions of the last N blocks, "
+     "a key re-appearing in a replacement block), which relates container contents over histories.",
+     technique="affine effect summaries per CFG path + affine-hull invariant check (Karr domain, translations only) + structural mutator rules")
 prop("C20", [CF.rule_CF, RO.rule_OR3],
      "Decided (nearly the whole statement, exhaustively over the finite tables): per-option precedence CLI > file > default; overwrite_key/force_update from the command line only; documented numeric defaults; "
      "the 8-row credential table and that verify refuses Invalid/Multiple; the network->port table, normalisation, port defaulting only when unset; unknown network refused; main verifies before opening the DB and exits on Err.",
@@ -119,7 +125,6 @@ prop("C20", [CF.rule_CF, RO.rule_OR3],
 
 NOT_APPLICABLE = [
     ("C17", "values computed by ChaCha20-Poly1305 / SHA-256 / ECDSA over all inputs: nothing about round-trip or tamper rejection is visible in the shape of cryptography.rs beyond which library functions are called; the one structural clause (locator = first 16 bytes of the txid) is checked as EF3 under C01"),
-    ("C19", "an invariant relating the contents of four containers after arbitrary operation sequences (incl. an arithmetic off-by-one on `tip`): no rule of this family can bound it without executing or symbolically evaluating the methods"),
 ]
 
 
